@@ -41,6 +41,7 @@ def tasks(tier, seed):
     t += [{"sub": "errors", "shard": 0}, {"sub": "cross", "shard": 0}]
     t += [{"sub": "deepcopy", "shard": i} for i in range(2)]
     t += [{"sub": "lazy", "shard": 0}]
+    t += [{"sub": "xproc", "shard": 0}]  # pickles written by one interpreter run and read by another (shared with C04)
     return t
 
 
@@ -512,8 +513,16 @@ def run_lazy(task, tier, seed, col):
 
 
 def run_task(task, tier, seed, col):
+    if task["sub"] == "xproc":
+        from .c04 import case_xproc_pickle
+
+        return col.run_case(lambda c: case_xproc_pickle(c, col), {"writer": 2 + seed % 3, "readers": [9, 2 + seed % 3]})
     {"roundtrip": run_roundtrip, "errors": run_errors, "cross": run_cross, "deepcopy": run_deepcopy, "lazy": run_lazy}[task["sub"]](task, tier, seed, col)
 
 
 def replay(sub, case):
+    if sub == "xproc":
+        from .c04 import case_xproc_pickle
+
+        return case_xproc_pickle(case)
     return {"roundtrip": case_roundtrip, "errors": case_error, "cross": case_cross, "deepcopy": case_deepcopy, "lazy": case_lazy}[sub](case)
